@@ -11,7 +11,7 @@ aliasing and in-place updates (`setX/setY/setZ`, attribute assignment) are part 
   the numbers are those of `Model/Geo.lean` computed from the values the objects hold *at the time of the call*;
 * `World.call` allocates the result; `World.set` is the in-place update; `World.mkTrack` is `Track(obs, base=…)`
   (the track *shares* the position objects and the base object with its caller);
-* `World.trackTo…` are `Track.toECEFCoords/toENUCoords/toGeoCoords/toProjCoords` of track.py: the positions are
+* `World.trackTo…` are `Track.toECEFCoords/toENUCoords/toGeoCoords/toProjCoords/toENUCoordsIfNeeded` of track.py: the positions are
   *rebound* to new objects (the old objects are left as they are), `Track.base` is rebound to a new object
   `base.toGeoCoords()` (a copy when the base is a `GeoCoords`) or to the SRID number. `getSRID()` looks at the class of
   the first position only; every position is then dispatched on its own class.
@@ -242,6 +242,18 @@ def World.trackToProj (w : World α) (ti : Nat) (srid : Nat) : Except Err (World
     .ok (w.rebind ti objs none (.int srid))
   | _ => .error .exit
 
+/-- `Track.toENUCoordsIfNeeded()`: a Geo track is converted with a *copy* of the position of its first observation
+as base (the copy is a new object, allocated before the conversion runs; it is what the method returns); any other track
+is left alone (the method returns `None`) -/
+def World.trackToENUIfNeeded (w : World α) (ti : Nat) : Except Err (World α) := do
+  let t ← getTrack w ti
+  let k ← trackKind w.heap t
+  match k, t.pts with
+  | .geo, p :: _ => do
+    let o ← deref w.heap p
+    ({ w with heap := w.heap ++ [⟨o.kind, o.v⟩] } : World α).trackToENU T ti (.ref w.heap.length)
+  | _, _ => .ok w
+
 /-- one step of a history -/
 inductive Op (α : Type) where
   | new (k : Kind) (v : V3 α)
@@ -249,6 +261,7 @@ inductive Op (α : Type) where
   | call (i : Nat) (m : Meth) (args : List Val)
   | mkTrack (pts : List Nat) (base : Val)
   | trackConv (ti : Nat) (m : Meth) (arg : Val)
+  | trackENUIf (ti : Nat)
 
 def World.step (w : World α) : Op α → Except Err (World α)
   | .new k v => .ok (w.new k v)
@@ -260,6 +273,7 @@ def World.step (w : World α) : Op α → Except Err (World α)
   | .trackConv ti .geo arg => w.trackToGeo T ti arg
   | .trackConv ti .proj (.int n) => w.trackToProj T ti n
   | .trackConv _ .proj _ => .error .dangling       -- the driver only sends a number here
+  | .trackENUIf ti => w.trackToENUIfNeeded T ti
 
 /-- a whole history, from the empty world -/
 def World.run (w : World α) : List (Op α) → Except Err (World α)
